@@ -34,6 +34,7 @@ type Prog struct {
 	overlaid []string
 	sentinel map[*ssa.Global]int
 	notes    map[string]bool
+	tier     string
 	constObjs map[*ssa.Global]string
 }
 
